@@ -38,3 +38,27 @@ def durMinUs : Int := -86399999913600000000
 def durMaxUs : Int := 86399999999999999999
 
 end Bp
+
+namespace Bp
+
+/-- number of fractional digits and their value in `timestamp_to_json`, from the
+    microsecond-of-second `u` (0 ≤ u < 10^6): none / 3 digits / 6 digits -/
+def tsFrac (u : Nat) : Option (Nat × Nat) :=
+  if u = 0 then none else if u % 1000 = 0 then some (3, u / 1000) else some (6, u)
+
+/-- `_Duration.delta_to_json` (after the D03 repair): (negative?, whole seconds of the
+    magnitude, number of fractional digits, their value) — 3 digits when the
+    microseconds are a multiple of 1000 (whole seconds included), otherwise 6 -/
+def durJson (us : Int) : Bool × Nat × Nat × Nat :=
+  let a := us.natAbs
+  let s := a / 1000000
+  let u := a % 1000000
+  if u % 1000 = 0 then (decide (us < 0), s, 3, u / 1000) else (decide (us < 0), s, 6, u)
+
+/-- `_Duration.delta_from_json`: `int(Decimal(text[:-1]) * 10**6)` on the decimal
+    (negative?, whole seconds, digit count, digits) -/
+def durFromJson (neg : Bool) (s nd d : Nat) : Int :=
+  let mag : Nat := s * 1000000 + (d * 1000000) / 10 ^ nd     -- digits below a microsecond are dropped
+  if neg then -(mag : Int) else (mag : Int)
+
+end Bp
